@@ -24,6 +24,25 @@ def all_cases(rng, tier, per, gen_tier="quick"):
         cases += cs if per is None else cs[:per]
     return cases
 
+def _kind(res):
+    if res is None:
+        return None
+    if res.startswith("panic"):
+        return "panic"
+    if res.startswith(("crash", "hang")) or res == "missing":
+        return "fault"
+    if res == "none" or res.startswith("err"):
+        return "none"
+    return "ok"
+
+def viol_filter(r):
+    """C14 is about FAILURE behaviour only: a case counts when the implementation faults, or when it
+    panics / returns None-or-error where the reference (spec, else model) does not, or vice versa.  A
+    wrong VALUE is the business of the property that owns the operation."""
+    ref = r["spec"] if r["spec"] is not None else r["model"]
+    ki, kr = _kind(r["impl"]), _kind(ref)
+    return ki == "fault" or (kr is not None and ki != kr)
+
 def generate(rng, tier):
     return all_cases(rng, tier, 400 if tier == "thorough" else 150)
 
